@@ -198,6 +198,34 @@ def _shipped_task(task):
     return acc
 
 
+def _pattern_task(task):
+    """shipped groups: exchanges whose messages / shared element / scalars carry a distinguished byte at every position"""
+    name, flavour, level, part, nparts = task
+    acc = Acc()
+    inst, why = T.try_get(name)
+    if inst is None:
+        acc.degrade("%s unavailable: %s" % (name, why))
+        return acc
+    R, rp, q = inst.ref, inst.rp, inst.q
+    pw = b"password"
+    w = R.pw_scalar(pw)
+    s1 = "A" if flavour == "AB" else "S"
+    pos = C.pattern_positions(R, level)
+    y0 = 0x1234567 % q
+    pairs = []
+    own = C.pattern_element_scalars(R, R.mul(rp.blind(s1), w), R.base(), pos)
+    pairs += [(k % q, y0) for k in sorted(set(own.values()))]
+    ks = C.pattern_element_scalars(R, R.identity, R.mul(R.base(), 0x7654321 % q), pos)
+    pairs += [(0x7654321 % q, k % q) for k in sorted(set(ks.values())) if k]
+    pairs += [(x, y0) for x in C.pattern_scalars(q, level)] + [(y0, x) for x in C.pattern_scalars(q, 0)]
+    mine = pairs[part::nparts]
+    for j, (x, y) in enumerate(mine):
+        judge(inst, flavour, pw, w, C.ids_for("S" if flavour == "SS" else "A", j), x, y, PATTERNS[j % 3 * 2 % 5], acc)
+    acc.n(traces=len(mine), states=len(mine))
+    acc.inst(name, pattern_exchanges=len(mine))
+    return acc
+
+
 def _known_dlog_task(task):
     """parameter sets with known-dlog M, N, S on the REAL shipped code: X* = identity, X* = Y*, K = identity, w = 0"""
     name, seed = task
@@ -323,6 +351,16 @@ def run(tier, seed):
     stasks.sort(key=lambda t: -T.get(t[0]).ref.esize)
     core.pmerge(_shipped_task, stasks, acc)
     core.pmerge(_known_dlog_task, [(n, seed) for n in T.SHIPPED], acc)
+    ptasks = []
+    for name in T.SHIPPED:
+        if T.try_get(name)[0] is None:
+            continue
+        np_ = {"ParamsEd25519": 6, "Params1024": 6, "Params2048": 10, "Params3072": 16}[name] * (1 if quick else 4)
+        for flavour in ("AB", "SS"):
+            for part in range(np_):
+                ptasks.append((name, flavour, 0 if quick else 1, part, np_))
+    ptasks.sort(key=lambda t: -T.get(t[0]).ref.esize)
+    core.pmerge(_pattern_task, ptasks, acc)
     core.pmerge(_sequence_task, [(["T23", "T23'", "T29", "T11"],), (["E37", "E37'", "E109"],), (["Params1024", "Params1024'"],),
                                  (["ParamsEd25519", "ParamsEd25519'"],)], acc)
     _default_path(acc)
